@@ -101,6 +101,66 @@ func regRegister(m *kioshun.Manager, name string, ty int, cfg kioshun.Config) er
 	}
 }
 
+// the same three call families through the package-level (global manager) wrappers
+func regGlobalRegister(name string, ty int, cfg kioshun.Config) error {
+	switch ty {
+	case 0:
+		return kioshun.RegisterGlobalCache(name, cfg)
+	case 1:
+		return kioshun.RegisterGlobalTypedCache[string, int](name, cfg)
+	case 2:
+		return kioshun.RegisterGlobalTypedCache[int, int](name, cfg)
+	default:
+		return kioshun.RegisterGlobalTypedCache[string, string](name, cfg)
+	}
+}
+
+func regGlobalGet(name string, ty int) (any, error) {
+	switch ty {
+	case 1:
+		c, e := kioshun.GetGlobalCache[string, int](name)
+		if e != nil {
+			return nil, e
+		}
+		return c, nil
+	case 2:
+		c, e := kioshun.GetGlobalCache[int, int](name)
+		if e != nil {
+			return nil, e
+		}
+		return c, nil
+	default:
+		c, e := kioshun.GetGlobalCache[string, string](name)
+		if e != nil {
+			return nil, e
+		}
+		return c, nil
+	}
+}
+
+func regGlobalGetCfg(name string, ty int, cfg kioshun.Config) (any, error) {
+	switch ty {
+	case 1:
+		c, e := kioshun.GetGlobalCacheWithConfig[string, int](name, cfg)
+		if e != nil {
+			return nil, e
+		}
+		return c, nil
+	case 2:
+		c, e := kioshun.GetGlobalCacheWithConfig[int, int](name, cfg)
+		if e != nil {
+			return nil, e
+		}
+		return c, nil
+	default:
+		c, e := kioshun.GetGlobalCacheWithConfig[string, string](name, cfg)
+		if e != nil {
+			return nil, e
+		}
+		return c, nil
+	}
+}
+
 func isClosedCache(c any) bool {
 	switch x := c.(type) {
 	case *kioshun.Cache[string, int]:
@@ -212,6 +272,63 @@ func streamReg(o opts) {
 		if t < 2 {
 			m.sample(fmt.Sprintf("sequential registry trace %d", t))
 		}
+	}
+	// the package-level wrappers over the global manager: the same sequential specification (no Remove there; fresh
+	// names per trace because global registrations cannot be dropped)
+	for t := 0; t < o.n/3+2; t++ {
+		w.T(sidReg, &toks{})
+		gnames := []string{fmt.Sprintf("g%d-%d-a", o.seed, t), fmt.Sprintf("g%d-%d-b", o.seed, t), fmt.Sprintf("g%d-%d-c", o.seed, t)}
+		ids := map[any]int64{}
+		next := int64(1)
+		idOf := func(c any) int64 {
+			if id, ok := ids[c]; ok {
+				return id
+			}
+			ids[c] = next
+			next++
+			return ids[c]
+		}
+		for i := 0; i < 30+r.Intn(40); i++ {
+			ni := r.Intn(len(gnames))
+			name := gnames[ni]
+			ty := 1 + r.Intn(3)
+			valid := r.Intn(8) != 0
+			cfg := good
+			if !valid {
+				cfg = bad
+			}
+			switch c := r.Intn(100); {
+			case c < 25:
+				rt := r.Intn(4)
+				err := regGlobalRegister(name, rt, cfg)
+				w.O(ints(1, int64(ni), int64(rt)).B(valid), ints(regErr(err), 0))
+				m.count("global_register")
+			case c < 55:
+				inst, err := regGlobalGet(name, ty)
+				id := int64(0)
+				if err == nil {
+					id = idOf(inst)
+				}
+				w.O(ints(2, int64(ni), int64(ty)), ints(regErr(err), id))
+				m.count("global_getcache")
+			case c < 90:
+				inst, err := regGlobalGetCfg(name, ty, cfg)
+				id := int64(0)
+				if err == nil {
+					id = idOf(inst)
+				}
+				w.O(ints(3, int64(ni), int64(ty)).B(valid), ints(regErr(err), id))
+				m.count("global_getcachewithconfig")
+			default:
+				kioshun.CloseAllGlobalCaches()
+				w.O(ints(5), ints(0, 0))
+				m.count("global_closeall")
+			}
+		}
+		if n := len(kioshun.GetGlobalCacheStats()); n > len(gnames) {
+			m.violate("C17", fmt.Sprintf("global manager reports %d live caches, at most %d names are in use", n, len(gnames)), fmt.Sprint(t))
+		}
+		kioshun.CloseAllGlobalCaches()
 	}
 	// concurrent rounds
 	watch("registry warm-up")
